@@ -132,6 +132,8 @@ class MultiCtl(BaseMultiCtl, Module):
         if self.parent is None or not down:
             return
         for i, to_mod in enumerate(self.out_links):
+            if to_mod == -1:  # freed link
+                continue
             mapping = self.mappings.values[i]
             if mapping.controller == 0:  # no destination controller mapped
                 continue
